@@ -8,7 +8,7 @@ from ase.build import bulk, molecule, surface
 from . import cells
 
 PALETTE = [1, 6, 8, 13, 14, 22, 26, 29, 47, 55, 79, 82]
-FAMILIES = ["gas", "crystal", "defective", "two_crystals", "crystallite", "molecules", "slab", "vacancy_shell", "primitive", "monolayer"]
+FAMILIES = ["gas", "crystal", "defective", "two_crystals", "crystallite", "molecules", "slab", "vacancy_shell", "primitive", "monolayer", "shared_species_stack"]
 
 _CRYSTALS = [
     ("Cu", "fcc", 3.61), ("Al", "fcc", 4.05), ("Fe", "bcc", 2.87), ("W", "bcc", 3.16), ("Si", "diamond", 5.43),
@@ -215,9 +215,39 @@ def monolayer(rng, max_atoms):
     return a
 
 
+
+_SHARED = [("GaAs", "AlAs", "zincblende", 5.65, 5.66), ("ZnS", "ZnSe", "zincblende", 5.41, 5.67), ("GaAs", "GaP", "zincblende", 5.65, 5.45),
+           ("TiN", "TiC", "rocksalt", 4.24, 4.33), ("NaCl", "NaBr", "rocksalt", 5.64, 5.97), ("MgO", "NiO", "rocksalt", 4.21, 4.17),
+           ("CaF2", "SrF2", "fluorite", 5.46, 5.80), ("KCl", "KBr", "rocksalt", 6.29, 6.60)]
+
+
+def shared_species_stack(rng, max_atoms):
+    """Two lattice-matched compounds that share one element, stacked along z (regions found from either side share
+    atoms of the common sublattice: the situation in which SBC has to merge / localize clusters of different species)."""
+    A, B, proto, aa, ab = _SHARED[int(rng.integers(len(_SHARED)))]
+    if rng.random() < 0.5:
+        A, B, aa, ab = B, A, ab, aa
+    k = 2
+    la, lb = int(rng.integers(1, 3)), int(rng.integers(1, 3))
+    a = bulk(A, proto, a=aa, cubic=True).repeat((k, k, la))
+    b = bulk(B, proto, a=ab, cubic=True).repeat((k, k, lb))
+    ca, cb = a.get_cell().array, b.get_cell().array
+    b.set_cell(np.array([ca[0], ca[1], cb[2]]), scale_atoms=True)
+    b.translate(ca[2])
+    s = a + b
+    gap = float(rng.choice([0.0, 0.0, 6.0]))
+    s.set_cell(np.array([ca[0], ca[1], ca[2] + cb[2] + np.array([0, 0, gap])]))
+    s.set_pbc(True)
+    if rng.random() < 0.5:
+        s.rattle(stdev=0.03, seed=int(rng.integers(1 << 30)))
+    if len(s) > max_atoms:
+        s = s[:max_atoms]
+    return s
+
+
 _BUILDERS = {"gas": gas, "crystal": crystal, "defective": defective, "two_crystals": two_crystals,
              "crystallite": crystallite, "molecules": molecules, "slab": slab, "vacancy_shell": vacancy_shell,
-             "primitive": primitive, "monolayer": monolayer}
+             "primitive": primitive, "monolayer": monolayer, "shared_species_stack": shared_species_stack}
 
 
 def random_structure(rng, max_atoms=300, family=None, allow_degenerate=True, allow_invalid=False,
